@@ -4,13 +4,15 @@
    not read generated `_old...` variables, for ALL blocks (nested if-statements of any depth),
    ALL start states, with the auxiliaries starting arbitrary, and at ALL iterations. *)
 From Coq Require Import List String QArith Qcanon ZArith.
-From Polar Require Import Qcx Dist Syntax Sem PassIf PassIfProof.
+From Polar Require Import Qcx Dist Syntax Sem PassIf PassIfProof PassIfAux.
 Import ListNotations.
 Open Scope string_scope.
 
+(* ===================== the rule of the tree as it stands (every assignment of a branch gets the
+   branch condition): model if_flatten_old ===================== *)
 (* one execution of a block: source block from s, flattened list from any t that agrees with s
    on the non-generated variables *)
-Theorem C02_if_flatten_block_preserves :
+Theorem C02_if_flatten_old_rule_block_preserves :
   forall (law : string -> list Qc -> dist Qc) (k : nat) (b : block) (l : list gassign) (k' : nat),
     if_flatten_old k b = Some (l, k') ->
     wf_block b = true ->
@@ -18,11 +20,11 @@ Theorem C02_if_flatten_block_preserves :
     forall f : state -> Qc,
       (forall s' t' : state, (forall x, is_gen x = false -> t' x = s' x) -> f t' = f s') ->
       E (exec_gas law l t) f = E (exec_block law b s) f.
-Proof. exact if_flatten_block_preserves. Qed.
-Print Assumptions C02_if_flatten_block_preserves.
+Proof. exact if_flatten_old_rule_block_preserves. Qed.
+Print Assumptions C02_if_flatten_old_rule_block_preserves.
 
 (* whole programs (init block and loop body, guard already literally true), every iteration n *)
-Theorem C02_if_flatten_preserves :
+Theorem C02_if_flatten_old_rule_preserves :
   forall (law : string -> list Qc -> dist Qc) (k : nat) (p : prog) (fp : flatprog) (k' : nat),
     if_flatten_prog_old k p = Some (fp, k') ->
     wf_prog p = true ->
@@ -30,19 +32,19 @@ Theorem C02_if_flatten_preserves :
     forall f : state -> Qc,
       (forall s' t' : state, (forall x, is_gen x = false -> t' x = s' x) -> f t' = f s') ->
       E (frun law fp n t0) f = E (run law p n s0) f.
-Proof. exact if_flatten_preserves. Qed.
-Print Assumptions C02_if_flatten_preserves.
+Proof. exact if_flatten_old_rule_preserves. Qed.
+Print Assumptions C02_if_flatten_old_rule_preserves.
 
 (* the hypothesis wf_block cannot be dropped: with a source variable named _old0 the model's (and
    Polar's, see the capture probe of harness/pass_if.py) output changes E(y) from 7 to 0 *)
-Theorem C02_if_flatten_without_wf_refuted :
+Theorem C02_if_flatten_old_rule_without_wf_refuted :
   exists (k : nat) (b : block) (l : list gassign) (k' : nat) (s : state) (f : state -> Qc),
     if_flatten_old k b = Some (l, k') /\
     (forall s' t' : state, (forall x, is_gen x = false -> t' x = s' x) -> f t' = f s') /\
     (forall x, is_gen x = false -> s x = s x) /\
     E (exec_gas no_law l s) f <> E (exec_block no_law b s) f.
 Proof. exact if_flatten_without_wf_refuted. Qed.
-Print Assumptions C02_if_flatten_without_wf_refuted.
+Print Assumptions C02_if_flatten_old_rule_without_wf_refuted.
 
 (* ---- non-vacuity: if a==0: y=1 elif b==0: y=2 else: a=5 end ---- *)
 Definition c_a0 := CAtom (EVar "a") Ceq (EConst (mkq 0 1)).
@@ -53,7 +55,7 @@ Definition ga (x : var) (c : cond) (e : expr) : gassign :=
 
 (* the model's output is Polar's: the copy of a comes first, and the negated first condition is
    renamed in the SECOND branch although a is assigned only in the last one (aliasing quirk) *)
-Example C02_if_example_output :
+Example C02_if_old_rule_example_output :
   if_flatten_old 0 ex_if =
   Some ([ga "_old0" CTrue (EVar "a");
          ga "y" c_a0 (EConst (mkq 1 1));
@@ -74,7 +76,7 @@ Definition ex_nested : prog :=
                                          (BCons (SAssign "a" (RDet (EConst (mkq 3 1)))) BNil)) BNil))
                              BrNil)
                           (BCons (SAssign "a" (RDraw (DUnif 1 2))) BNil)) BNil |}.
-Example C02_if_nested_defined :
+Example C02_if_old_rule_nested_defined :
   (match if_flatten_prog_old 7 ex_nested with
    | Some (fp, k) => (List.length (fp_body fp), k)
    | None => (0%nat, 0%nat)
@@ -86,8 +88,84 @@ Definition ex_mutex : block :=
   BCons (SIf (BrCons (CAtom (EVar "_c3") Ceq (EConst (mkq 0 1))) (BCons (SAssign "x" (RDet (EConst (mkq 1 1)))) BNil)
              (BrCons (CAtom (EVar "_c3") Ceq (EConst (mkq 1 1))) (BCons (SAssign "x" (RDet (EVar "x"))) BNil) BrNil))
              BNil) BNil.
-Example C02_if_mutex_output :
+Example C02_if_old_rule_mutex_output :
   if_flatten_old 4 ex_mutex =
   Some ([ga "x" (CAtom (EVar "_c3") Ceq (EConst (mkq 0 1))) (EConst (mkq 1 1));
          ga "x" (CAtom (EVar "_c3") Ceq (EConst (mkq 1 1))) (EVar "x")], 4%nat).
+Proof. vm_compute. reflexivity. Qed.
+
+(* ===================== the rule of proposed_fixes/c18_auxiliary_assignments_unconditional.diff:
+   auxiliary assignments (_old<k> copies, _t<k> temporaries, _c<k> categorical draws) stay
+   unconditional: model if_flatten =====================
+   Hypotheses (boolean, aux_ok): no input variable named _old...; every auxiliary assignment has a
+   right-hand side of total mass 1 (probabilities sum to 1 as polynomials, DiscreteUniform(a,b) with
+   a <= b); every auxiliary variable is assigned before it is read on every path of every iteration
+   (live_ok).  Continuous laws have total mass 1.  Observations do not read auxiliary variables. *)
+Theorem C02_if_flatten_block_preserves :
+  forall (law : string -> list Qc -> dist Qc), (forall f args, mass (law f args) = 1%Qc) ->
+  forall (k : nat) (b : block) (l : list gassign) (k' : nat),
+    if_flatten k b = Some (l, k') ->
+    aux_ok b = true ->
+    forall s t : state, (forall x, is_aux x = false -> t x = s x) ->
+    forall f : state -> Qc,
+      (forall s' t' : state, (forall x, is_aux x = false -> t' x = s' x) -> f t' = f s') ->
+      E (exec_gas law l t) f = E (exec_block law b s) f.
+Proof. exact if_flatten_block_preserves. Qed.
+Print Assumptions C02_if_flatten_block_preserves.
+
+Theorem C02_if_flatten_preserves :
+  forall (law : string -> list Qc -> dist Qc), (forall f args, mass (law f args) = 1%Qc) ->
+  forall (k : nat) (p : prog) (fp : flatprog) (k' : nat),
+    if_flatten_prog k p = Some (fp, k') ->
+    aux_ok_prog p = true ->
+    forall (n : nat) (s0 t0 : state), (forall x, is_aux x = false -> t0 x = s0 x) ->
+    forall f : state -> Qc,
+      (forall s' t' : state, (forall x, is_aux x = false -> t' x = s' x) -> f t' = f s') ->
+      E (frun law fp n t0) f = E (run law p n s0) f.
+Proof. exact if_flatten_preserves. Qed.
+Print Assumptions C02_if_flatten_preserves.
+
+(* non-vacuity: c = Bernoulli(1/2); if c == 1: f, x = 1, x+1 (parser: _t0 = 1; _t1 = x+1; f = _t0; x = _t1);
+   _c2 = Categorical(1/4,3/4); if _c2 == 0: x = x+1 elif _c2 == 1: x = x+2 end end; if f == 1: f = 0 end *)
+Definition ex_aux : block :=
+  BCons (SAssign "c" (RDraw (DBern (EConst (mkq 1 2)))))
+  (BCons (SIf (BrCons (CAtom (EVar "c") Ceq (EConst (mkq 1 1)))
+          (BCons (SAssign "_t0" (RDet (EConst (mkq 1 1))))
+          (BCons (SAssign "_t1" (RDet (EAdd (EVar "x") (EConst (mkq 1 1)))))
+          (BCons (SAssign "f" (RDet (EVar "_t0")))
+          (BCons (SAssign "x" (RDet (EVar "_t1")))
+          (BCons (SAssign "_c2" (RDraw (DCat [EConst (mkq 1 4); EConst (mkq 3 4)])))
+          (BCons (SIf (BrCons (CAtom (EVar "_c2") Ceq (EConst (mkq 0 1))) (BCons (SAssign "x" (RDet (EAdd (EVar "x") (EConst (mkq 1 1))))) BNil)
+                      (BrCons (CAtom (EVar "_c2") Ceq (EConst (mkq 1 1))) (BCons (SAssign "x" (RDet (EAdd (EVar "x") (EConst (mkq 2 1))))) BNil)
+                       BrNil)) BNil) BNil)))))) BrNil) BNil)
+  (BCons (SIf (BrCons (CAtom (EVar "f") Ceq (EConst (mkq 1 1))) (BCons (SAssign "f" (RDet (EConst (mkq 0 1)))) BNil) BrNil) BNil) BNil)).
+Definition c_c1 := CAtom (EVar "c") Ceq (EConst (mkq 1 1)).
+Definition gar (x : var) (c : cond) (r : rhs) : gassign := {| ga_var := x; ga_cond := c; ga_default := x; ga_rhs := r |}.
+Example C02_if_aux_example_output :
+  if_flatten 3 ex_aux =
+  Some ([gar "c" CTrue (RDraw (DBern (EConst (mkq 1 2))));
+         ga "_t0" CTrue (EConst (mkq 1 1));
+         ga "_t1" CTrue (EAdd (EVar "x") (EConst (mkq 1 1)));
+         ga "f" c_c1 (EVar "_t0");
+         ga "x" c_c1 (EVar "_t1");
+         gar "_c2" CTrue (RDraw (DCat [EConst (mkq 1 4); EConst (mkq 3 4)]));
+         ga "x" (CAnd (CAtom (EVar "_c2") Ceq (EConst (mkq 0 1))) c_c1) (EAdd (EVar "x") (EConst (mkq 1 1)));
+         ga "x" (CAnd (CAtom (EVar "_c2") Ceq (EConst (mkq 1 1))) c_c1) (EAdd (EVar "x") (EConst (mkq 2 1)));
+         ga "_old3" CTrue (EVar "f");
+         ga "f" (CAtom (EVar "_old3") Ceq (EConst (mkq 1 1))) (EConst (mkq 0 1))], 4%nat).
+Proof. vm_compute. reflexivity. Qed.
+Example C02_if_aux_example_hyps : aux_ok ex_aux = true.
+Proof. vm_compute. reflexivity. Qed.
+(* the earlier examples under the new rule: same output on the DESIGN example (no auxiliary inside a
+   branch); the nested program keeps its inner copy unconditional *)
+Example C02_if_example_output :
+  if_flatten 0 ex_if = if_flatten_old 0 ex_if /\ aux_ok ex_if = true /\ aux_ok_prog ex_nested = true.
+Proof. vm_compute. repeat split. Qed.
+Example C02_if_nested_inner_copy_unconditional :
+  match if_flatten_prog 7 ex_nested, if_flatten_prog_old 7 ex_nested with
+  | Some (fp, _), Some (fpo, _) =>
+      (map ga_cond (filter (fun g => is_gen (ga_var g)) (fp_body fp)),
+       map (fun g => match ga_cond g with CTrue => true | _ => false end) (filter (fun g => is_gen (ga_var g)) (fp_body fpo)))
+  | _, _ => ([], [])
+  end = ([CTrue; CTrue; CTrue], [true; false; false]).
 Proof. vm_compute. reflexivity. Qed.
